@@ -116,8 +116,8 @@ int32_t jls_track_repair_pointers(struct jls_core_track_s * track) {
             offset_descend_next = 0;
             if (JLS_TRACK_TYPE_FSR == track->track_type) {
                 struct jls_fsr_index_s * r = (struct jls_fsr_index_s *) core->buf->start;
-                if (r->header.entry_count > 0) {
-                    offset_descend_next = r->offsets[r->header.entry_count - 1];
+                for (uint32_t k = r->header.entry_count; (0 == offset_descend_next) && (k > 0); --k) {
+                    offset_descend_next = r->offsets[k - 1];  // 0 for an omitted block
                 }
             } else {
                 struct jls_index_s * r = (struct jls_index_s *) core->buf->start;
@@ -138,13 +138,17 @@ int32_t jls_track_repair_pointers(struct jls_core_track_s * track) {
         }
 
         if (descend || (0 == offset)) {
-            if (offset_descend && index_chunk.offset && summary_chunk.offset) {
-                JLS_LOGI("descend signal_id %d track %d, level %d, offset %" PRIi64,
-                         (int) signal_id, (int) track->track_type, (int) level, offset_descend);
+            if (index_chunk.offset && summary_chunk.offset) {
+                // last complete index & summary of this level: cut whatever follows
                 index_chunk.hdr.item_next = 0;
                 summary_chunk.hdr.item_next = 0;
                 jls_core_update_chunk_header(core, &index_chunk);
                 jls_core_update_chunk_header(core, &summary_chunk);
+                if (!offset_descend) {
+                    offset_descend = offsets[level - 1];  // only omitted blocks below: walk the lower level from its head
+                }
+                JLS_LOGI("descend signal_id %d track %d, level %d, offset %" PRIi64,
+                         (int) signal_id, (int) track->track_type, (int) level, offset_descend);
                 offset = offset_descend;
             } else {
                 JLS_LOGI("restart signal_id %d track %d, level %d, offset %" PRIi64,
